@@ -686,6 +686,12 @@ def judge_statement_anchors(p, out, prov, stats):
     defs = prov.get("defs") or []
     if not defs:
         return fails
+    if any(r["id"] == "T2008" for r in out.get("reports") or []):
+        # a definition declared twice: which copy survives the merge depends on a hash order (known finding
+        # C17-duplicate-definition-order), and the reports and the SSA dump come from two runs of the harness
+        stats["anchor_projects_skipped_duplicate_definition"] += 1
+        return fails
+    stats["anchor_projects_evaluated"] += 1
     stmts = set()
     for d in defs:
         for s, e, f, k in (d.get("ssa") or []):
@@ -1265,6 +1271,8 @@ def run(ctx, proofs):
             "claimed_statement_anchored": sorted("%s %s" % k for k in STMT_ANCHORED),
             "labels_evaluated": {k[12:]: v for k, v in sorted(stats.items()) if k.startswith("anchor_eval:")},
             "labels_at_a_statement_of_the_ssa_cfg": {k[12:]: v for k, v in sorted(stats.items()) if k.startswith("anchor_stmt:")},
+            "projects_evaluated": stats["anchor_projects_evaluated"],
+            "projects_skipped_duplicate_definition": stats["anchor_projects_skipped_duplicate_definition"],
             "note": "hypothesis `nodes_of ctor` subset of `cfg_stmt_metas c'` of C04_labels_wellformed_through_desugaring_and_ssa / "
                     "_lifting_and_ssa, evaluated on every label of every in-process report against the statement nodes of the SSA "
                     "cfgs the real into_cfg + into_ssa build for the project; a label of a claimed (code, role) outside that set "
